@@ -113,7 +113,10 @@ def oracle(case, rec):
         if got.shape != want.shape:
             raise PropertyViolation("C20/jtj/shape", "jtj has shape %s for %d free parameters" % (got.shape, nf), case)
         scale = np.abs(want).max() + 1e-300
-        if np.abs(got - want).max() > 1e-5 * scale:
+        # absolute floor: sensitivities carry a solver error of ~1e-7 relative to the largest state; where the true
+        # sensitivities vanish (a model started at an equilibrium, observation times ~1e-3) the products are pure rounding noise
+        floor = n * p * (1e-7 * (1 + float(np.abs(X).max()))) ** 2 * float(np.max(W)) ** 2
+        if np.abs(got - want).max() > 1e-5 * scale + floor:
             raise PropertyViolation("C20/jtj/value", "jtj differs from sum of outer products of weighted reference sensitivities by %.3g (scale %.3g)" % (
                 np.abs(got - want).max(), scale), case)
         if np.abs(got - got.T).max() > 1e-12 * scale:
@@ -151,7 +154,8 @@ def oracle(case, rec):
         Si = Sp[i][np.ix_(cols, pidx)]
         jtj2 += 2 * Si.T.dot(Si)
     second = np.abs(H - jtj2).max()
-    if np.abs(got - H).max() > 1e-4 * scale + 1e-6 * second:
+    floor = 2 * n * p * (1e-7 * (1 + float(np.abs(X).max()))) ** 2
+    if np.abs(got - H).max() > 1e-4 * scale + 1e-6 * second + floor:
         key = "C20/hessian-value/classA" if class_a else "C20/hessian-value/classB-mixed-terms"
         raise PropertyViolation(key, "hessian differs from the derivative of the gradient by %.3g (scale %.3g; second-order part %.3g): got %s want %s" % (
             np.abs(got - H).max(), scale, second, np.array2string(got, precision=6), np.array2string(H, precision=6)), case)
